@@ -24,14 +24,28 @@
 (* denominator D: sign of the gradient = effect of raising alpha_k, the    *)
 (* gradients sum to zero, non-zero exactly for candidates off the          *)
 (* theta-weighted mean.                                                    *)
+(*                                                                         *)
+(* Mode "time".  One-step enumeration of ONE Conv1d time mask: kernel      *)
+(* K <= KMax, every assignment of TVals to |beta|, |gamma| (K <= KFull;    *)
+(* beyond, the two extreme values).  Checked against MaskAlgebra: the      *)
+(* straight-through gradient of the discrete kernel size (SteGradBeta /    *)
+(* SteGradGamma with the backward rule Ste) is positive for every          *)
+(* non-keep-alive element at every parameter value and zero for the        *)
+(* keep-alive ones, never hides a change of Kept, bounds its finite        *)
+(* difference; the corner contexts that define "relevant on the lattice"   *)
+(* are complete and relevant = non-keep-alive.  Ste = "clipped" and        *)
+(* "zeroabove" are expected-to-fail configurations.                        *)
 (***************************************************************************)
 EXTENDS CostDeps
 
-CONSTANTS Mode,        \* "lattice" | "mix"
+CONSTANTS Mode,        \* "lattice" | "mix" | "time"
           Vals,        \* lattice: magnitudes, units of 0.1
           Fams,        \* lattice: which members of Family
           AllowDeps,   \* lattice: BOOLEAN - Perturb / NewInput enabled
-          D            \* mix: denominator of theta
+          D,           \* mix: denominator of theta
+          Ste,         \* backward rule of the binariser: "identity" (as written) | "half" | "clipped" | "zeroabove"
+          TVals,       \* time: magnitudes for kernels K <= KFull (every assignment)
+          KFull, KMax  \* time: kernels KFull < K <= KMax over the two extreme values of TVals only
 
 VARIABLES arch,   \* the architecture (constant along a behaviour)
           st,     \* structure derived ONCE from arch: elements, keep-alive elements, sharing map, original costs
@@ -117,8 +131,19 @@ MpsCands == {[k \in 1..Len(P) |-> Cand(m, MixLayers[i], P[k])] : m \in MixMetric
 SnCands  == UNION {[1..n -> {0, 3, 7}] : n \in 2..3}
 Thetas(n) == {t \in [1..n -> 0..D] : SeqSum(t, 1) = D}
 
+Time == Mode = "time"
+TMin == CHOOSE v \in TVals : \A u \in TVals : v <= u
+TMax == CHOOSE v \in TVals : \A u \in TVals : u <= v
+\* K <= KFull: every assignment of TVals; beyond: step patterns (one switch between the two extreme values)
+Step(n, cut, lo, hi) == [i \in 1..n |-> IF i >= cut THEN hi ELSE lo]
+TVecs(K, n) == IF K <= KFull THEN [1..n -> TVals]
+               ELSE {Step(n, cut, TMin, TMax) : cut \in 1..(n + 1)} \cup {Step(n, cut, TMax, TMin) : cut \in 1..(n + 1)}
+
 Init ==
-    IF Lat
+    IF Time
+    THEN /\ arch = NoArch /\ st = <<>> /\ A = NoState /\ cv = <<>> /\ wv = 0 /\ xv = 0
+         /\ \E K \in 1..KMax : mix = [ph |-> "k", K |-> K, b |-> <<>>, g |-> <<>>]
+    ELSE IF Lat
     THEN /\ arch \in {Family[i] : i \in Fams} /\ st = Struct(arch) /\ A = Bottom(arch) /\ cv = CostAt(arch, A)
          /\ wv = 0 /\ xv = 0 /\ mix = <<>>
     ELSE /\ arch = NoArch /\ st = <<>> /\ A = NoState /\ cv = <<>> /\ wv = 0 /\ xv = 0
@@ -135,7 +160,13 @@ NewInput == Lat /\ AllowDeps /\ xv' = 1 - xv /\ UNCHANGED <<arch, st, A, cv, wv,
 
 RaiseAny == Lat /\ \E e \in st.els : Raise(e)
 
-Next == RaiseAny \/ Perturb \/ NewInput
+\* time mode: the mask is chosen in two steps (beta, then gamma) so that TLC's workers share the enumeration
+ChooseB == /\ Time /\ mix.ph = "k" /\ \E b \in TVecs(mix.K, mix.K) : mix' = [mix EXCEPT !.ph = "b", !.b = b]
+           /\ UNCHANGED <<arch, st, A, cv, wv, xv>>
+ChooseG == /\ Time /\ mix.ph = "b" /\ \E g \in TVecs(mix.K, MA!GLen(mix.K)) : mix' = [mix EXCEPT !.ph = "done", !.g = g]
+           /\ UNCHANGED <<arch, st, A, cv, wv, xv>>
+
+Next == RaiseAny \/ Perturb \/ NewInput \/ ChooseB \/ ChooseG
 
 Spec == Init /\ [][Next]_vars
 
@@ -167,10 +198,51 @@ InvDiscIntegral   == Lat => \A m \in Metrics(arch) : cv[<<m, TRUE>>] % Unit(m, a
 \* nothing can be searched INTO existence
 InvDiscBounded    == Lat => \A m \in Metrics(arch) : cv[<<m, TRUE>>] <= st.orig[m]
 
+(* ---- straight-through gradient of the discrete cost (backward rule Ste) ---- *)
+\* every non-keep-alive element gets a non-zero gradient from the discrete cost at EVERY lattice state ...
+InvDiscSteSupport == Lat => \A e \in st.els \ st.ka : SteGrad(Ste, arch, A, e) > 0
+\* ... a keep-alive element never
+InvDiscSteKaZero  == Lat => \A e \in st.ka : SteGrad(Ste, arch, A, e) = 0
+\* whenever lifting an element across the threshold changes an effective size HERE, the discrete cost strictly rises
+\* (so "changes the kept / alive set" and "raises the discrete metric" coincide for the smooth metrics)
+InvSizeChangeRaisesCost ==
+    Lat => \A e \in st.els \ st.ka :
+               LET A1 == PutS(st.share, A, e, MA!One)  A0 == PutS(st.share, A, e, 0) IN
+               Sizes(arch, A1, TRUE) # Sizes(arch, A0, TRUE) => Cost("ops", arch, A1, TRUE) > Cost("ops", arch, A0, TRUE)
+\* lattice relevance (CostDeps!DiscRelevant) = non-keep-alive, for every applicable metric incl. gap8 (family: widths <= 3)
+InvDiscRelevant ==
+    (Lat /\ A = Bottom(arch)) => \A e \in st.els, m \in Metrics(arch) :
+        (Smooth(m) \/ arch.dim = 2) => (DiscRelevant(m, arch, st.share, e) <=> e \notin st.ka)
+
 \* sanity (expected to FAIL): a keep-alive element is NOT strictly monotone - the predicted support is not "everything"
 InvStrictEverywhere ==
     Lat => \A e \in st.els : Get(A, e) < MaxV =>
                Cost("params", arch, PutS(st.share, A, e, MaxV), FALSE) > cv[<<"params", FALSE>>]
+
+(* ------------------------------ time invariants ------------------------- *)
+TDone == Time /\ mix.ph = "done"
+TK == mix.K
+TG == MA!GLen(mix.K)
+GradOf(kind, i) == IF kind = "b" THEN SteGradBeta(Ste, TK, mix.b, mix.g, i) ELSE SteGradGamma(Ste, TK, mix.b, mix.g, i)
+LenOf(kind) == IF kind = "b" THEN TK ELSE TG
+KeptWith(kind, i, v) == IF kind = "b" THEN KeptOf(TK, [mix.b EXCEPT ![i] = v], mix.g) ELSE KeptOf(TK, mix.b, [mix.g EXCEPT ![i] = v])
+\* every non-keep-alive element gets a non-zero straight-through gradient at EVERY parameter value, a keep-alive one never
+InvTimeSteSupport ==
+    TDone => \A kind \in {"b", "g"} : \A i \in 1..LenOf(kind) : (GradOf(kind, i) > 0) <=> (i # LenOf(kind))
+\* per element, with Kept of MaskAlgebra for the element at 0 and at 1 (other elements as they are):
+\*  - the value in a keep-alive slot never changes the kept set;
+\*  - the gradient never hides a change of the kept set at this parameter value;
+\*  - such a change is found in one of the four corner contexts (TimeRelevant is complete);
+\*  - identity backward: the gradient bounds the number of taps the element can switch on
+InvTimeElements ==
+    TDone => \A kind \in {"b", "g"} : \A i \in 1..LenOf(kind) :
+        LET k1 == KeptWith(kind, i, MA!One)  k0 == KeptWith(kind, i, 0)  gr == GradOf(kind, i) IN
+        /\ (i = LenOf(kind) => k1 = k0)
+        /\ (k1 # k0 => gr > 0 /\ TimeRelevant(TK, kind, i))
+        /\ (Ste = "identity" => 2 * (Cardinality(k1) - Cardinality(k0)) <= gr)
+\* "relevant on the lattice" = not keep-alive (does not depend on the parameter values: checked once per kernel size)
+InvTimeRelevantIffNotKA ==
+    (Time /\ mix.ph = "k") => \A kind \in {"b", "g"} : \A i \in 1..LenOf(kind) : TimeRelevant(TK, kind, i) <=> i # LenOf(kind)
 
 (* ------------------------------ mix invariants -------------------------- *)
 Mix == Mode = "mix"
